@@ -4,6 +4,7 @@ pub mod assets;
 pub mod bytesfid;
 pub mod extra;
 pub mod front;
+pub mod fsreplay;
 pub mod mem;
 pub mod nodes;
 pub mod once;
